@@ -34,6 +34,9 @@ func runC18(c *Ctx) {
 	c.Doc("R18.3", "insertion of a new instance into SubCache.cached happens in the write-locked region that also tested for its absence")
 	c.Doc("R18.4", "guarded-by table: SubCache.excerpts/cached ↔ mu, RepoCache.userIdentityId ↔ muUserIdentity (write ⇒ write lock), GoGitRepo.clocks ↔ clocksMutex, GoGitRepo.indexes ↔ indexesMutex, withSnapshot.snap ↔ mu")
 	checkLRUAndWriteSection(c, lw)
+	// acknowledged operations survive eviction, and a notification for an evicted instance is refused (shared with C11)
+	c.Doc("R11.5", "evictIfNeeded deletes from the loaded set only on the !NeedCommit() edge, together with lru.Remove, and locks the evicted instance; entityUpdated fails when the entity is not loaded (a creation or edit on an evicted instance is not acknowledged)")
+	checkEviction(c)
 	fns := lockScopeFns(w)
 	exemptHold := map[string]string{
 		"cache.CachedEntityBase.Lock": "documented: locks an evicted instance forever so that stale users block instead of diverging",
